@@ -134,6 +134,15 @@ func (f *Frame) exec(in ssa.Instruction, st *State) {
 		if f.spec && sh.Kind != pLocal {
 			c.unsupported(f, "heap store in specification code")
 		}
+		if sh.Kind != pLocal {
+			// a reference stored into the heap may be reached by any later callee
+			for _, t := range f.get(in.Val) {
+				if f.leaked == nil {
+					f.leaked = map[string]bool{}
+				}
+				f.leaked[t.S] = true
+			}
+		}
 		c.store(st, sh, f.get(in.Val))
 	case *ssa.UnOp:
 		f.execUnOp(in, st)
@@ -263,6 +272,7 @@ func (f *Frame) execAlloc(in *ssa.Alloc, st *State) {
 		return
 	}
 	r := c.allocObj(st, t)
+	f.localObjs = append(f.localObjs, localObj{r, t})
 	f.set(in, []Term{r})
 }
 
